@@ -118,7 +118,33 @@ def run(c):
         wy = NPC.westfall_young(e, tests, reps=4, seed=c["seed"] + 3, in_place=False)
         gsame = g0 == np.random.get_state()[1].tobytes()
         outs.append([a, [int(v) for v in e2.group], [int(v) for v in e.group], float(sp[0]), [float(sp[2][0]), float(sp[2][1])], [float(wy[0][0]), float(wy[1][0])], gsame])
-    return {"outs": outs}
+    # the SAME Experiment object re-seeded with the same seed, from the same assignment, after its generator was
+    # advanced in place: every repetition must give the same result, and the same as a fresh SHA256(seed) generator
+    same = []
+    cov = [[0], [0], [1], [1], [1], [0]] if c["strat"] else None
+    fnr = NPC.randomize_in_strata if c["strat"] else NPC.randomize_group
+    e = Experiment(group=[0, 1, 0, 1, 1, 0], response=[[1], [2], [4], [8], [16], [32]], covariate=cov, randomizer=Experiment.Randomizer(randomize=fnr))
+    tests = Experiment.make_test_array(Experiment.TestFunc.mean_diff, [0])
+    start = np.array(e.group).copy()
+    def from_start(what, seed):
+        e.group = start.copy()
+        if what == "randomize":
+            e.randomize(in_place=True, seed=seed); return [int(v) for v in e.group]
+        if what == "randomize_copy":
+            e2 = e.randomize(in_place=False, seed=seed); return [[int(v) for v in e2.group], [int(v) for v in e.group]]
+        if what == "sim_npc":
+            r = NPC.sim_npc(e, tests * 2, reps=3, seed=seed, in_place=True); return [float(r[0]), [int(v) for v in e.group]]
+        r = NPC.westfall_young(e, tests, reps=3, seed=seed, in_place=True); return [[float(v) for v in r[0]], [int(v) for v in e.group]]
+    for what in ("randomize", "randomize_copy", "sim_npc", "westfall_young"):
+        s = c["seed"] + 7
+        r1 = guarded(lambda: from_start(what, s))
+        r2 = guarded(lambda: from_start(what, s))
+        guarded(lambda: e.randomize(in_place=True))            # advance the generator without re-seeding
+        r3 = guarded(lambda: from_start(what, s))
+        from cryptorandom.cryptorandom import SHA256 as _SHA
+        r4 = guarded(lambda: from_start(what, _SHA(s)))
+        same.append([what, list(r1), list(r2), list(r3), list(r4)])
+    return {"outs": outs, "same": same}
 
 
 def snap(e):
@@ -200,6 +226,13 @@ def oracle(c, o):
             return {"why": f"seeded randomize / sim_npc / westfall_young from the same assignment differ between two runs: {a} vs {b}", "cls": "experiment:irreproducible"}
         if not a[6] or not b[6]:
             return {"why": "a seeded sim_npc / westfall_young call advanced numpy's global random state", "cls": "experiment:global-rng"}
+        for what, r1, r2, r3, r4 in o.get("same", []):
+            if r1[0] != "ok":
+                return {"why": f"{what}(in_place=True, seed=...) raised {r1}", "cls": "experiment:raises"}
+            if not (r1 == r2 == r3):
+                return {"why": f"{what}(seed={c['seed'] + 7}) repeated on the same Experiment from the same assignment gives {r1[1]}, {r2[1]}, then (after an unseeded randomize) {r3[1]}", "cls": "experiment:irreproducible"}
+            if r1 != r4:
+                return {"why": f"{what}: int seed {c['seed'] + 7} gives {r1[1]} but a fresh SHA256 generator with that seed {r4[1]}", "cls": "experiment:int-vs-sha256"}
         return None
     if f == "testfn":
         g = c["g"]; idx = c["idx"]; col = [float(r[idx]) for r in c["resp"]]
